@@ -189,7 +189,8 @@ class Ctx:
             self.known.append((f["id"], case_id))
             return False
         os.makedirs(self.replay_dir, exist_ok=True)
-        name = re.sub(r"[^A-Za-z0-9._-]+", "_", case_id)[:150] + ".json"
+        import hashlib
+        name = re.sub(r"[^A-Za-z0-9._-]+", "_", case_id)[:120] + "-" + hashlib.sha1(case_id.encode()).hexdigest()[:8] + ".json"
         path = os.path.join(self.replay_dir, name)
         with open(path, "w") as fo:
             json.dump(payload, fo, indent=1)
